@@ -504,11 +504,11 @@ fn wrap_ref(src: &mut Src, r: &str) -> String {
 /// returns (program, files, description); `broken` replaces the closing edge of the cycle by a constant (control)
 fn cycle_program(src: &mut Src, broken: bool) -> (String, Vec<(String, String)>, &'static str) {
 	let k = src.range(1, 4) as usize;
-	let kind = src.below(7);
+	let kind = src.below(8);
 	let mut refs: Vec<String> = vec![];
 	let name = |i: usize| match kind {
 		0 => format!("v{i}"),
-		1 | 5 => format!("self.f{i}"),
+		1 | 5 | 7 => format!("self.f{i}"),
 		2 => format!("arr[{i}]"),
 		3 => format!("p{i}"),
 		4 => format!("$.f{i}"),
@@ -530,6 +530,12 @@ fn cycle_program(src: &mut Src, broken: bool) -> (String, Vec<(String, String)>,
 			format!("{{ local l = self.f0, {}, g: l }}.g", (0..k).map(|i| format!("f{i}: {}", refs[i])).collect::<Vec<_>>().join(", ")),
 			vec![],
 			"object-local-and-fields",
+		),
+		// the cycle is first entered by an object assertion
+		7 => (
+			format!("{{ {}, assert std.type(self.f0) != 'boolean' : 'inv' }}.f{}", (0..k).map(|i| format!("f{i}: {}", refs[i])).collect::<Vec<_>>().join(", "), k - 1),
+			vec![],
+			"fields-read-by-assertion",
 		),
 		_ => ("import 'n0.libsonnet'".to_owned(), (0..k).map(|i| (format!("n{i}.libsonnet"), refs[i].clone())).collect(), "imports"),
 	}
